@@ -13,7 +13,7 @@ import types
 ROOT = os.path.dirname(os.path.dirname(os.path.abspath(__file__)))
 sys.path.insert(0, ROOT)
 STATS = {}
-MODS = ["contracts.options", "contracts.inventory", "contracts.warnings", "contracts.slug", "contracts.directives", "contracts.parse_html", "contracts.invreader", "contracts.lines", "contracts.render", "contracts.links", "contracts.footnotes"]
+MODS = ["contracts.options", "contracts.inventory", "contracts.warnings", "contracts.slug", "contracts.directives", "contracts.parse_html", "contracts.invreader", "contracts.lines", "contracts.render", "contracts.links", "contracts.footnotes", "contracts.heading"]
 
 
 def _wrap(target, fn, funcheck, fs):
